@@ -8,21 +8,11 @@ Y = 2000
 TERMS = [u'冬至', u'小寒', u'大寒', u'立春', u'雨水', u'惊蛰', u'春分', u'清明', u'谷雨', u'立夏', u'小满', u'芒种', u'夏至', u'小暑', u'大暑', u'立秋', u'处暑', u'白露', u'秋分', u'寒露', u'霜降', u'立冬', u'小雪', u'大雪']
 
 
-def run(ctx):
-    ctx.exhaustive = False
-    ctx.exhaustive_note = 'complete over every day of a scenario year for three term placements; not over all real dates'
-    from rules import shared
-    ctx.include('effect_inventory', shared.effect_inventory)   # no new process-wide mutable state (MIR statics inventory)
-    ctx.include('solver_structure', shared.solver_structure)   # the day-level term / new-moon solvers fall back to the precise solver near civil midnight
-    ctx.include('jd_tables', shared.jd_tables)           # civil date <-> day number per (year, month) (shared, cached per source hash)
+def term_ctor_rules(ctx):
+    """the two term constructors agree; stepping / constructing by index carries by floor (shared with C05: a term built either way must be THE term k of the year)"""
     p = ctx.prog
-    I = ctx.interp(fuel=100000000)
-    t = T(I)
     ctx.rule('SIB-CTOR', 'the two term constructors agree field by field (series stubbed with two different shapes to drive both branches)')
     ctx.rule('CARRY', 'stepping / constructing a term by index carries into the year by floor, in both directions and around year 0')
-    ctx.rule('PETE-TABLE', 'finite table vs oracle')
-    ctx.rule('PETE-SCENARIO', 'day -> term and instant -> term code evaluated on scenario calendars incl. Julian-era term placements')
-
     # ---- sibling constructors
     for sname, stub in (('identity', lambda I_, r, a: a[0]), ('late', lambda I_, r, a: a[0] + 400.0)):
         I3 = ctx.interp(fuel=20000000)
@@ -58,6 +48,25 @@ def run(ctx):
         return (py(t3.m(a, 'get_year')), py(t3.m(a, 'get_index')), t3.m(a, 'get_cursory_julian_day')) == (py(t3.m(b, 'get_year')), py(t3.m(b, 'get_index')), t3.m(b, 'get_cursory_julian_day'))
     table(ctx, 'CARRY', 'CARRY:SolarTerm::next==from_index', domt, step_vs_ctor, lambda x: True, 'next(n) and from_index(year, index+n) are the same term', str)
 
+
+
+def run(ctx):
+    ctx.exhaustive = False
+    ctx.exhaustive_note = 'complete over every day of a scenario year for three term placements; not over all real dates'
+    from rules import shared
+    ctx.include('effect_inventory', shared.effect_inventory)   # no new process-wide mutable state (MIR statics inventory)
+    ctx.include('solver_structure', shared.solver_structure)   # the day-level term / new-moon solvers fall back to the precise solver near civil midnight
+    ctx.include('jd_tables', shared.jd_tables)           # civil date <-> day number per (year, month) (shared, cached per source hash)
+    p = ctx.prog
+    I = ctx.interp(fuel=100000000)
+    t = T(I)
+    ctx.rule('SIB-CTOR', 'the two term constructors agree field by field (series stubbed with two different shapes to drive both branches)')
+    ctx.rule('CARRY', 'stepping / constructing a term by index carries into the year by floor, in both directions and around year 0')
+    ctx.rule('PETE-TABLE', 'finite table vs oracle')
+    ctx.rule('PETE-SCENARIO', 'day -> term and instant -> term code evaluated on scenario calendars incl. Julian-era term placements')
+
+    term_ctor_rules(ctx)
+
     # ---- parity
     cm0 = CalModel(I, typical_terms(range(Y - 1, Y + 3)), synthetic_months(Y, CAL.jdn(Y, 2, 5), 2))
     table(ctx, 'PETE-TABLE', 'SolarTerm::is_jie/is_qi', range(24), lambda i: (lambda s: (t.m(s, 'is_jie'), t.m(s, 'is_qi'), t.name(s)))(cm0.term_sv(Y, i)), lambda i: (i % 2 == 1, i % 2 == 0, TERMS[i]),
@@ -67,7 +76,9 @@ def run(ctx):
     # three placements of the term days relative to the civil months: today's, the Julian era's (terms ~10-13 days earlier in the month) and far-future (later)
     scen = [('modern', typical_terms(range(Y - 1, Y + 3))),
             ('julian-era (-12 d)', typical_terms(range(Y - 1, Y + 3), shift=dict((i, -12) for i in range(24)))),
-            ('far future (+9 d)', typical_terms(range(Y - 1, Y + 3), shift=dict((i, 9) for i in range(24))))]
+            ('far future (+9 d)', typical_terms(range(Y - 1, Y + 3), shift=dict((i, 9) for i in range(24)))),
+            # a term whose instant is 0.3 s before civil midnight starts (rounded to the second) at 00:00:00 of the NEXT day
+            ('terms 0.3 s before midnight', typical_terms(range(Y - 1, Y + 3), sec=dict((i, 86399.7) for i in (1, 6, 12, 19))))]
     months = synthetic_months(Y, CAL.jdn(Y, 2, 5), 2)
     days = list(range(CAL.jdn(Y, 1, 1), CAL.jdn(Y, 12, 31) + 1))
 
@@ -81,7 +92,8 @@ def run(ctx):
     def term_of_day_orc(x):
         si, n = x
         tm = scen[si][1]
-        tn, (ty, ti) = max((v[0], k) for k, v in tm.items() if v[0] <= n)
+        eff = lambda v: v[0] + (1 if int(v[1] + 0.5) >= 86400 else 0)      # the day on which the term starts = day of its instant rounded to the second
+        tn, (ty, ti) = max((eff(v), k) for k, v in tm.items() if eff(v) <= n)
         return (ty, ti, n - tn)
     table(ctx, 'PETE-SCENARIO', 'SolarDay::get_term_day', [(si, n) for si in range(len(scen)) for n in days], term_of_day, term_of_day_orc,
           'each civil day is assigned the latest term that starts on or before it, day index = days since that term\'s day (term days start at index 0)',
@@ -120,6 +132,11 @@ def run(ctx):
     table(ctx, 'PETE-SCENARIO', 'SolarTime::get_term', [(si, n, s) for si in range(len(scen_t)) for (n, s) in crit(scen_t[si][1])], term_of_time, term_of_time_orc,
           'each instant is assigned the latest term that starts on or before it (the term\'s own start second included)',
           lambda x: '%s %d-%02d-%02d %02d:%02d:%02d' % ((scen_t[x[0]][0],) + CAL.from_jdn(x[1]) + (x[2] // 3600, x[2] // 60 % 60, x[2] % 60)), fn_site(p, 'SolarTime::get_term'))
+
+    # ---- the two ends of the supported range (first days of 0001, last days of 9999, last lunar year)
+    from rules import range_end as _re
+    _Ie = ctx.interp(fuel=50000000)
+    _re.c06_edge(ctx, _Ie, T(_Ie))
 
     ctx.assumptions.append('term days / instants are scenario inputs; civil date <-> day number replaced by the calendar oracle (C01)')
     ctx.not_decided.append('that successive term instants increase 14.6-15.8 days apart and day indices never exceed 16 on the real calendar (series values: C05)')
